@@ -8,6 +8,8 @@
 import ChessVerif.Model.Movegen
 import ChessVerif.Spec.Rules
 import ChessVerif.Props.C11
+import ChessVerif.Lemmas.KingMoves
+import ChessVerif.Lemmas.CastleSafe
 namespace Chess.Props
 
 /-- the rules-level move a packed engine move denotes in position p -/
@@ -58,5 +60,110 @@ theorem C01_king_moves_partial (k : Nat) (notAllowed : BB) (m : Nat) (h : m ∈ 
 theorem C01_pins_partial (b : BBs) (board : List Nat) (side : Nat) : (genPins b board side).length ≤ 8 := by
   unfold genPins
   exact Nat.le_trans (List.length_filterMap_le _ _) (by simp)
+
+/-- C01 (forbidden squares): on a well-formed position the generator's "forbidden squares" set — built as the union of every
+    enemy piece's attack set with the own king x-rayed out of the sliders' way — contains a square exactly when the rules
+    call that square attacked on the board from which the own king has been lifted (uses C11 and the symmetry of attacks) -/
+theorem C01_forbidden_squares (p : Position) (hwf : Spec.wf (Chess.absPos p) = true) (t : Nat) (ht : t < 64) :
+    ∃ k, KingAt p.board p.side k ∧
+      (forbiddenSquares (BBs.of p) p.board p.side).testBit t = Spec.attacked (p.board.set k 0) t (1 - p.side) := by
+  obtain ⟨hbo, hside, hk, _, _⟩ := wf_board_hyps _ hwf
+  obtain ⟨k, hka, _⟩ := hk p.side hside
+  obtain ⟨kq, hkq, _⟩ := hk (1 - p.side) (by omega)
+  exact ⟨k, hka, forbidden_eq_attacked p p.side t k kq hside ht hbo hka hkq⟩
+
+/-- C01 (king moves, EXACT): on every well-formed position, for every target square, the generator emits the king move
+    k→t exactly when that move is legal under the rules and is not a castling move — no missing move, no illegal move.
+    (Exactness of the other piece kinds, pins and check evasions is the open part of C01.) -/
+theorem C01_king_moves_exact (p : Position) (hwf : Spec.wf (Chess.absPos p) = true) :
+    ∃ k, KingAt p.board p.side k ∧ ∀ t, t < 64 →
+      ((mkMove k t ∈ genKingMoves k (forbiddenSquares (BBs.of p) p.board p.side ||| (BBs.of p).color p.side)) ↔
+        ((⟨k, t, 0⟩ : Spec.SMove) ∈ Spec.legalMoves (Chess.absPos p) ∧ t ≠ k + 2 ∧ t + 2 ≠ k)) := by
+  obtain ⟨_, hside, hk, _, _⟩ := wf_board_hyps _ hwf
+  obtain ⟨k, hka, _⟩ := hk p.side hside
+  obtain ⟨kq, hkq, _⟩ := hk (1 - p.side) (by omega)
+  exact ⟨k, hka, fun t ht => king_moves_exact p hwf k kq t ht hka hkq⟩
+
+/-- C01 (the in-check test): on every well-formed position the generator's "checkers set is non-empty" test is
+    the rules' "the side to move is in check" -/
+theorem C01_in_check_test (p : Position) (hwf : Spec.wf (Chess.absPos p) = true) :
+    (checkersBB (BBs.of p) p.board p.side ≠ 0) ↔ Spec.inCheck p.board p.side = true := by
+  obtain ⟨hbo, hside, hk, _, _⟩ := wf_board_hyps _ hwf
+  obtain ⟨k, hka, hnear⟩ := hk p.side hside
+  rw [checkers_ne_zero_iff, isInCheck_eq p p.side k hside hbo hka hnear]
+
+/-- C01 (forbidden squares when not in check): then the generator's forbidden set is exactly "attacked by the opponent"
+    on the real board (lifting a king that is not attacked uncovers nothing) -/
+theorem C01_forbidden_nocheck (p : Position) (hwf : Spec.wf (Chess.absPos p) = true) (hnc : Spec.inCheck p.board p.side = false)
+    (t : Nat) (ht : t < 64) :
+    (forbiddenSquares (BBs.of p) p.board p.side).testBit t = Spec.attacked p.board t (1 - p.side) :=
+  forbidden_nocheck p hwf hnc t ht
+
+/-- C01 (CASTLING IS EXACT): on a well-formed position whose side to move is not in check, each of the generator's four
+    castling tests — right still held, (forbidden ∪ occupied) ∩ path = ∅, and for the queen side the b-file square empty —
+    holds exactly when the rules list that castling move (Spec.castleMoves: king and rook at home, squares between them
+    empty, king not in check and not passing over or landing on an attacked square); and every castling move the rules
+    list is a legal move (it survives the "own king not attacked afterwards" filter).  When the side to move is in check
+    the generator emits no castling move and the rules list none. -/
+theorem C01_castling_exact (p : Position) (hwf : Spec.wf (Chess.absPos p) = true) (hnc : Spec.inCheck p.board p.side = false) :
+    let taken := forbiddenSquares (BBs.of p) p.board p.side ||| (BBs.of p).all
+    (p.side = 0 →
+      ((p.castling &&& W_OO ≠ 0 ∧ (taken &&& castlingPath W_OO) = 0) ↔ (⟨4, 6, 0⟩ : Spec.SMove) ∈ Spec.castleMoves (Chess.absPos p)) ∧
+      ((p.castling &&& W_OOO ≠ 0 ∧ (taken &&& castlingPath W_OOO) = 0 ∧ (queenCastlingBlock 0 &&& (BBs.of p).all) = 0) ↔
+        (⟨4, 2, 0⟩ : Spec.SMove) ∈ Spec.castleMoves (Chess.absPos p))) ∧
+    (p.side = 1 →
+      ((p.castling &&& B_OO ≠ 0 ∧ (taken &&& castlingPath B_OO) = 0) ↔ (⟨60, 62, 0⟩ : Spec.SMove) ∈ Spec.castleMoves (Chess.absPos p)) ∧
+      ((p.castling &&& B_OOO ≠ 0 ∧ (taken &&& castlingPath B_OOO) = 0 ∧ (queenCastlingBlock 1 &&& (BBs.of p).all) = 0) ↔
+        (⟨60, 58, 0⟩ : Spec.SMove) ∈ Spec.castleMoves (Chess.absPos p))) ∧
+    (∀ m, m ∈ Spec.castleMoves (Chess.absPos p) → m ∈ Spec.legalMoves (Chess.absPos p)) := by
+  intro taken
+  exact ⟨fun hs => ⟨castle_cond_WK p hwf hnc hs, castle_cond_WQ p hwf hnc hs⟩,
+         fun hs => ⟨castle_cond_BK p hwf hnc hs, castle_cond_BQ p hwf hnc hs⟩,
+         fun m hm => castleMoves_legal _ hwf m hm⟩
+
+/-- … and the generator does emit the castling code when its test holds (the castling tests sit in the not-in-check branch) -/
+theorem C01_castling_emitted (p : Position) (h0 : checkersBB (BBs.of p) p.board p.side = 0) :
+    let taken := forbiddenSquares (BBs.of p) p.board p.side ||| (BBs.of p).all
+    (p.side = 0 → p.castling &&& W_OO ≠ 0 ∧ (taken &&& castlingPath W_OO) = 0 → mkCastling KING_CASTLING ∈ genMoves p) ∧
+    (p.side = 0 → p.castling &&& W_OOO ≠ 0 ∧ (taken &&& castlingPath W_OOO) = 0 ∧ (queenCastlingBlock 0 &&& (BBs.of p).all) = 0 →
+      mkCastling QUEEN_CASTLING ∈ genMoves p) ∧
+    (p.side ≠ 0 → p.castling &&& B_OO ≠ 0 ∧ (taken &&& castlingPath B_OO) = 0 → mkCastling KING_CASTLING ∈ genMoves p) ∧
+    (p.side ≠ 0 → p.castling &&& B_OOO ≠ 0 ∧ (taken &&& castlingPath B_OOO) = 0 ∧ (queenCastlingBlock 1 &&& (BBs.of p).all) = 0 →
+      mkCastling QUEEN_CASTLING ∈ genMoves p) := by
+  intro taken
+  have hcond : ¬ (checkersBB (BBs.of p) p.board p.side ≠ 0 ∧ moreThanOne (checkersBB (BBs.of p) p.board p.side) = true) := by
+    rw [h0]; simp
+  have hne : ¬ (checkersBB (BBs.of p) p.board p.side ≠ 0) := by rw [h0]; simp
+  refine ⟨?_, ?_, ?_, ?_⟩
+  · intro hs hc
+    unfold genMoves
+    simp only []
+    rw [if_neg hcond, if_neg hne]
+    apply List.mem_append_left
+    apply List.mem_append_right
+    rw [if_pos hs, if_pos hc]
+    exact List.mem_singleton.2 rfl
+  · intro hs hc
+    unfold genMoves
+    simp only []
+    rw [if_neg hcond, if_neg hne]
+    apply List.mem_append_right
+    rw [if_pos hs, if_pos hc]
+    exact List.mem_singleton.2 rfl
+  · intro hs hc
+    unfold genMoves
+    simp only []
+    rw [if_neg hcond, if_neg hne]
+    apply List.mem_append_left
+    apply List.mem_append_right
+    rw [if_neg hs, if_pos hc]
+    exact List.mem_singleton.2 rfl
+  · intro hs hc
+    unfold genMoves
+    simp only []
+    rw [if_neg hcond, if_neg hne]
+    apply List.mem_append_right
+    rw [if_neg hs, if_pos hc]
+    exact List.mem_singleton.2 rfl
 
 end Chess.Props
